@@ -16,3 +16,9 @@ CLAIMS["C05"] = dict(
     text="For every program of the choice families every operation history up to depth 3 (quick) / 4 (thorough) is replayed on a fresh real Kconfig; in every distinct reachable user state the exactly-one / none-when-invisible invariant, the documented selection rule (pick, else first enabled visible default, else first visible member) and the header/CMake/JSON/sdkconfig agreement are evaluated. Exhaustive within the alphabet; states merged on the complete user state.",
     note="User pick semantics (last member set to y since the last reset / replacing load) is the reading of the statement encoded in refsem.RefState; default-marked loads excluded (C08).",
 )
+CLAIMS["C02"] = dict(
+    category="model_checking",
+    technique="explicit-state BFS over set/unset/reset/load/merge histories; in every distinct reachable state the real writer and a fresh real reader are composed (write, load, write) and compared byte for byte, report areas inspected",
+    text="For every probe x context program (escaped strings, hex forms, floats, ranged ints, choices, set/set default, promptless-before-dependency, multi-definition; plain / conditional prompt / depends / menu / if; with a rename table) every history up to depth 3 (quick) / 4 (thorough) over set/unset/reset and load/merge of tool-written and hand-written files is replayed; each distinct state is saved, reloaded into a fresh instance and saved again: values, bytes, DefaultValues/MultipleAssignment records and unknown symbols are checked, with and without the deprecated block.",
+    note="Load menu is history independent (files written at the initial and single-set states + hand-written); the no-mismatch clause is not demanded of states that carry an sdkconfig-injected default (C08 requires that mismatch to be reported).",
+)
